@@ -274,108 +274,104 @@ luaL_setfuncs({LUA_state_var}, {LUA_class_reg}, 0);
         lines = self.splicer_lines
         self.stmts_comments = []
 
-        if len(all_calls) == 1:
-            call = all_calls[0]
-            fmt.nresults = call.nresults
-            self.do_function(cls, call, fmt)
-            append_format(lines, "return {nresults};", fmt)
-        else:
-            lines.append("int SH_nresult = 0;")
-            fmt.LUA_used_param_state = True
-            # A method is called as obj:name(args): the object is at
-            # index 1 and is not one of the arguments.
-            if cls and not is_ctor:
-                self_offset = 1
-                append_format(
-                    lines,
-                    "int SH_nargs = lua_gettop({LUA_state_var}) - 1;", fmt
-                )
-            else:
-                self_offset = 0
-                append_format(
-                    lines, "int SH_nargs = lua_gettop({LUA_state_var});", fmt
-                )
-
-            # Find type of each argument
-            itype_vars = []
-            for iarg in range(1, maxargs + 1):
-                itype_vars.append("SH_itype{}".format(iarg))
-                fmt.itype_var = itype_vars[-1]
-                fmt.iarg = iarg + self_offset
-                append_format(
-                    lines,
-                    "int {itype_var} = " "lua_type({LUA_state_var}, {iarg});",
-                    fmt,
-                )
-
-            lines.append("switch (SH_nargs) {")
-            for nargs, calls in enumerate(by_count):
-                if len(calls) == 0:
-                    continue
-                lines.append("case {}:".format(nargs))
-                lines.append(1)
-                ifelse = "if"
-
-                for call in calls:
-                    fmt.nresults = call.nresults
-                    checks = []
-                    for iarg, arg in enumerate(call.inargs):
-                        arg_typemap = arg.typemap
-                        fmt.itype_var = itype_vars[iarg]
-                        fmt.itype = arg_typemap.LUA_type
-                        append_format(checks, "{itype_var} == {itype}", fmt)
-
-                    # Select cases to help with formating of output
-                    if nargs == 0:
-                        # put within a compound statement to
-                        # scope local variables
-                        lines.extend(["{", 1])
-                        self.do_function(cls, call, fmt)
-                        append_format(lines, "SH_nresult = {nresults};", fmt)
-                        lines.extend([-1, "}"])
-                    elif nargs == 1:
-                        lines.append("{} ({}) {{+".format(ifelse, checks[0]))
-                        self.do_function(cls, call, fmt)
-                        append_format(
-                            lines, "SH_nresult = {nresults};\n" "-}}", fmt
-                        )
-                    elif nargs == 2:
-                        lines.append("{} ({} &&+".format(ifelse, checks[0]))
-                        lines.append("{}) {{".format(checks[1]))
-                        self.do_function(cls, call, fmt)
-                        append_format(
-                            lines, "SH_nresult = {nresults};\n" "-}}", fmt
-                        )
-                    else:
-                        lines.append("{} ({} &&+".format(ifelse, checks[0]))
-                        for check in checks[1:-1]:
-                            lines.append("{} &&".format(check))
-                        lines.append("{}) {{".format(checks[-1]))
-                        self.do_function(cls, call, fmt)
-                        append_format(
-                            lines, "SH_nresult = {nresults};\n" "-}}", fmt
-                        )
-                    ifelse = "else if"
-                if nargs > 0:
-                    # Trap errors when the argument types do not match
-                    append_format(
-                        lines,
-                        "else {{+\n"
-                        'luaL_error({LUA_state_var}, "error with arguments");\n'
-                        "-}}",
-                        fmt,
-                    )
-                lines.append("break;")
-                lines.append(-1)
+        # A name with one signature is tested like an overloaded one:
+        # the stack must have its count and types.
+        lines.append("int SH_nresult = 0;")
+        fmt.LUA_used_param_state = True
+        # A method is called as obj:name(args): the object is at
+        # index 1 and is not one of the arguments.
+        if cls and not is_ctor:
+            self_offset = 1
             append_format(
                 lines,
-                "default:+\n"
-                'luaL_error({LUA_state_var}, "error with arguments");\n'
-                "break;\n"
-                "-}}\n"
-                "return SH_nresult;",
+                "int SH_nargs = lua_gettop({LUA_state_var}) - 1;", fmt
+            )
+        else:
+            self_offset = 0
+            append_format(
+                lines, "int SH_nargs = lua_gettop({LUA_state_var});", fmt
+            )
+
+        # Find type of each argument
+        itype_vars = []
+        for iarg in range(1, maxargs + 1):
+            itype_vars.append("SH_itype{}".format(iarg))
+            fmt.itype_var = itype_vars[-1]
+            fmt.iarg = iarg + self_offset
+            append_format(
+                lines,
+                "int {itype_var} = " "lua_type({LUA_state_var}, {iarg});",
                 fmt,
             )
+
+        lines.append("switch (SH_nargs) {")
+        for nargs, calls in enumerate(by_count):
+            if len(calls) == 0:
+                continue
+            lines.append("case {}:".format(nargs))
+            lines.append(1)
+            ifelse = "if"
+
+            for call in calls:
+                fmt.nresults = call.nresults
+                checks = []
+                for iarg, arg in enumerate(call.inargs):
+                    arg_typemap = arg.typemap
+                    fmt.itype_var = itype_vars[iarg]
+                    fmt.itype = arg_typemap.LUA_type
+                    append_format(checks, "{itype_var} == {itype}", fmt)
+
+                # Select cases to help with formating of output
+                if nargs == 0:
+                    # put within a compound statement to
+                    # scope local variables
+                    lines.extend(["{", 1])
+                    self.do_function(cls, call, fmt)
+                    append_format(lines, "SH_nresult = {nresults};", fmt)
+                    lines.extend([-1, "}"])
+                elif nargs == 1:
+                    lines.append("{} ({}) {{+".format(ifelse, checks[0]))
+                    self.do_function(cls, call, fmt)
+                    append_format(
+                        lines, "SH_nresult = {nresults};\n" "-}}", fmt
+                    )
+                elif nargs == 2:
+                    lines.append("{} ({} &&+".format(ifelse, checks[0]))
+                    lines.append("{}) {{".format(checks[1]))
+                    self.do_function(cls, call, fmt)
+                    append_format(
+                        lines, "SH_nresult = {nresults};\n" "-}}", fmt
+                    )
+                else:
+                    lines.append("{} ({} &&+".format(ifelse, checks[0]))
+                    for check in checks[1:-1]:
+                        lines.append("{} &&".format(check))
+                    lines.append("{}) {{".format(checks[-1]))
+                    self.do_function(cls, call, fmt)
+                    append_format(
+                        lines, "SH_nresult = {nresults};\n" "-}}", fmt
+                    )
+                ifelse = "else if"
+            if nargs > 0:
+                # Trap errors when the argument types do not match
+                append_format(
+                    lines,
+                    "else {{+\n"
+                    'luaL_error({LUA_state_var}, "error with arguments");\n'
+                    "-}}",
+                    fmt,
+                )
+            lines.append("break;")
+            lines.append(-1)
+        append_format(
+            lines,
+            "default:+\n"
+            'luaL_error({LUA_state_var}, "error with arguments");\n'
+            "break;\n"
+            "-}}\n"
+            "return SH_nresult;",
+            fmt,
+        )
 
         body = self.body_lines
         body.append("")
